@@ -11,6 +11,13 @@ Section UndoProofs.
   Hypothesis HT : 0 < T.
   Hypothesis Hdiv : T mod B = 0.
   Variable d0 : disk.
+  Definition q := off / T.
+  Definition r := off mod T.
+
+  Lemma off_qr : off = q * T + r.
+  Proof. unfold q, r. pose proof (N.div_mod off T ltac:(lia)). lia. Qed.
+  Lemma r_lt : r < T.
+  Proof. unfold r. apply N.mod_lt. lia. Qed.
 
   Definition kpos (k : key) := k_fsblk k * B.
   Definition klen (k : key) := N.of_nat (length (k_data k)).
@@ -22,8 +29,8 @@ Section UndoProofs.
 
   Record J (s : ust) : Prop := {
     j_keys : forall k, In k (u_keys s) -> key_ok k;
-    j_dsk : forall o, (o < off \/ memN ((o - off) / T) (u_written s) = false) -> u_dsk s o = d0 o;
-    j_cov : forall c x, memN c (u_written s) = true -> x / T = c -> exists k, In k (u_keys s) /\ kcov k x;
+    j_dsk : forall o, (o < off \/ memN ((o - off) / T + q) (u_written s) = false) -> u_dsk s o = d0 o;
+    j_cov : forall c x, memN c (u_written s) = true -> x / T + q = c -> exists k, In k (u_keys s) /\ kcov k x;
   }.
 
   Lemma memN_true x l : memN x l = true <-> In x l.
@@ -49,17 +56,20 @@ Section UndoProofs.
   Qed.
 
   (* ---- one cell ---- *)
-  Lemma save_cell_ok s c : J s ->
+  Lemma save_cell_ok s c : J s -> q <= c ->
     J (save_cell B T off s c) /\ u_dsk (save_cell B T off s c) = u_dsk s /\
     (forall x, memN x (u_written s) = true -> memN x (u_written (save_cell B T off s c)) = true) /\
     memN c (u_written (save_cell B T off s c)) = true.
   Proof.
-    intros Js. unfold save_cell. destruct (memN c (u_written s)) eqn:M; [auto|].
-    set (bb := c * T / B). set (data := rd_bytes (u_dsk s) (bb * B + off) (N.to_nat T)).
-    assert (Hbb : bb * B = c * T) by apply cell_blk.
-    assert (Hdata : data = rd_bytes d0 (c * T + off) (N.to_nat T)).
+    intros Js Hq. unfold save_cell. destruct (memN c (u_written s)) eqn:M; [auto|].
+    fold r. set (bb := (c * T + r - off) / B). set (data := rd_bytes (u_dsk s) (bb * B + off) (N.to_nat T)).
+    set (fc := c - q).
+    assert (Hbb : bb * B = fc * T).
+    { unfold bb. replace (c * T + r - off) with (fc * T) by (unfold fc; pose proof off_qr; nia). apply cell_blk. }
+    assert (Hdata : data = rd_bytes d0 (fc * T + off) (N.to_nat T)).
     { unfold data. rewrite Hbb. apply rd_bytes_ext. intros o Ho. apply (j_dsk _ Js). right.
-      replace ((o - off) / T) with c; auto. apply N.div_unique with (o - off - c * T); lia. }
+      replace ((o - off) / T + q) with c; auto.
+      assert ((o - off) / T = fc) by (symmetry; apply N.div_unique with (o - off - fc * T); lia). unfold fc in *. lia. }
     assert (Ldata : length data = N.to_nat T) by (unfold data; apply rd_bytes_length).
     (* the new or extended key list *)
     match goal with |- context [let '(keys', kib') := ?X in _] => set (kk := X) end.
@@ -96,9 +106,9 @@ Section UndoProofs.
         + cbn [fst]. intros k' Hk'. apply in_app_or in Hk'. destruct Hk' as [Hk'|[<-|[]]]; [apply (j_keys _ Js); auto|].
           unfold key_ok, kpos, klen. cbn [k_fsblk k_data]. rewrite Ldata, N2Nat.id, Hbb.
           split; [lia|split; [apply N.mod_same; lia|split; [apply N.mod_mul; lia|rewrite Hdata; reflexivity]]]. }
-    assert (KC : forall x, x / T = c -> exists k, In k (fst kk) /\ kcov k x).
-    { intros x Hx. assert (Hxr : c * T <= x < c * T + T).
-      { pose proof (N.div_mod x T ltac:(lia)). pose proof (N.mod_lt x T ltac:(lia)). subst c. lia. }
+    assert (KC : forall x, x / T + q = c -> exists k, In k (fst kk) /\ kcov k x).
+    { intros x Hx. assert (Hxr : fc * T <= x < fc * T + T).
+      { pose proof (N.div_mod x T ltac:(lia)). pose proof (N.mod_lt x T ltac:(lia)). unfold fc. nia. }
       unfold kk. destruct (rev (u_keys s)) as [|k r] eqn:R.
       - cbn [fst]. eexists. split; [apply in_or_app; right; left; reflexivity|].
         unfold kcov, kpos, klen. cbn [k_fsblk k_data]. rewrite Ldata, N2Nat.id. lia.
@@ -144,16 +154,16 @@ Section UndoProofs.
     - rewrite memN_cons, N.eqb_refl. reflexivity.
   Qed.
 
-  Lemma save_cells_ok : forall n s c, J s ->
+  Lemma save_cells_ok : forall n s c, J s -> q <= c ->
     let s' := save_cells B T off s c n in
     J s' /\ u_dsk s' = u_dsk s /\
     (forall x, memN x (u_written s) = true -> memN x (u_written s') = true) /\
     (forall x, c <= x < c + N.of_nat n -> memN x (u_written s') = true).
   Proof.
-    induction n; intros s c Js; cbn [save_cells].
+    induction n; intros s c Js Hq; cbn [save_cells].
     - split; [exact Js|]. split; [reflexivity|]. split; [auto|]. intros x Hx. lia.
-    - destruct (save_cell_ok s c Js) as (A1 & A2 & A3 & A4).
-      destruct (IHn (save_cell B T off s c) (c + 1) A1) as (B1 & B2 & B3 & B4). cbv zeta in *.
+    - destruct (save_cell_ok s c Js Hq) as (A1 & A2 & A3 & A4).
+      destruct (IHn (save_cell B T off s c) (c + 1) A1 ltac:(lia)) as (B1 & B2 & B3 & B4). cbv zeta in *.
       split; [exact B1|]. split; [congruence|]. split; [auto|].
       intros x Hx. destruct (N.eq_dec x c) as [->|Hne]; [apply B3; exact A4|apply B4; lia].
   Qed.
@@ -161,20 +171,36 @@ Section UndoProofs.
   Lemma save_ok s block size : J s ->
     let s' := save B T off s block size in
     J s' /\ u_dsk s' = u_dsk s /\
-    (forall x, block * B <= x < block * B + size -> memN (x / T) (u_written s') = true).
+    (forall x, block * B <= x < block * B + size -> memN (x / T + q) (u_written s') = true).
   Proof.
-    intros Js. unfold save.
-    destruct (save_cells_ok (N.to_nat ((block * B + size - 1) / T + 1 - block * B / T)) s (block * B / T) Js)
-      as (A1 & A2 & A3 & A4). cbv zeta in *.
+    intros Js. unfold save. fold r.
+    set (offset := block * B + off).
+    pose proof off_qr as Hoff. pose proof r_lt as Hr.
+    pose proof (N.div_mod offset T ltac:(lia)) as Ed. pose proof (N.mod_lt offset T ltac:(lia)) as Em.
+    set (c0 := offset / T) in *. set (m := offset mod T) in *.
+    assert (Hc0q : q <= c0) by (unfold offset in *; nia).
+    set (c0' := if (0 <? c0) && (m <? r) then c0 - 1 else c0).
+    assert (Hc0' : q <= c0' /\ c0' * T + r <= offset).
+    { unfold c0'. destruct (N.ltb_spec 0 c0); destruct (N.ltb_spec m r); cbn [andb]; unfold offset in *; nia. }
+    destruct Hc0' as [Hq0 Hlow].
+    destruct (save_cells_ok (N.to_nat ((offset + size - 1) / T + 1 - c0')) s c0' Js Hq0) as (A1 & A2 & A3 & A4). cbv zeta in *.
     split; [exact A1|]. split; [exact A2|].
     intros x Hx. apply A4.
-    assert (block * B / T <= x / T) by (apply N.div_le_mono; lia).
-    assert (x / T <= (block * B + size - 1) / T) by (apply N.div_le_mono; lia).
+    pose proof (N.div_mod x T ltac:(lia)) as Ex. pose proof (N.mod_lt x T ltac:(lia)) as Emx.
+    pose proof (N.div_mod (offset + size - 1) T ltac:(lia)) as E1. pose proof (N.mod_lt (offset + size - 1) T ltac:(lia)) as Em1.
+    set (c1 := (offset + size - 1) / T) in *. set (fx := x / T) in *.
+    assert (L1 : c0' < fx + 1 + q).
+    { apply (N.mul_lt_mono_pos_r T); [lia|].
+      replace ((fx + 1 + q) * T) with (fx * T + T + q * T) by lia. unfold offset in *. lia. }
+    assert (L2 : fx + q < c1 + 1).
+    { apply (N.mul_lt_mono_pos_r T); [lia|].
+      replace ((fx + q) * T) with (fx * T + q * T) by lia.
+      replace ((c1 + 1) * T) with (c1 * T + T) by lia. unfold offset in *. lia. }
     lia.
   Qed.
 
   Lemma real_write_ok s fsoff data :
-    J s -> (forall x, fsoff <= x < fsoff + N.of_nat (length data) -> memN (x / T) (u_written s) = true) ->
+    J s -> (forall x, fsoff <= x < fsoff + N.of_nat (length data) -> memN (x / T + q) (u_written s) = true) ->
     J (real_write off s fsoff data).
   Proof.
     intros Js Hw. unfold real_write. constructor; cbn [u_keys u_dsk u_written].
@@ -195,9 +221,10 @@ Section UndoProofs.
     - simpl In. rewrite IHn. lia.
   Qed.
 
-  Lemma reopen_ok s : J s -> J (ustep B T off s UReopen).
+  Lemma reopen_ok s : J s -> off < T -> J (ustep B T off s UReopen).
   Proof.
-    intros Js. cbn [ustep].
+    intros Js Hsmall. cbn [ustep].
+    assert (Hq0 : q = 0) by (unfold q; apply N.div_small; exact Hsmall).
     assert (RW : forall c, memN c (reopen_written B T (u_keys s)) = true <->
                            exists k, In k (u_keys s) /\ kpos k / T <= c < kpos k / T + klen k / T).
     { intros c. rewrite memN_true. unfold reopen_written. rewrite in_flat_map. split.
@@ -222,17 +249,18 @@ Section UndoProofs.
     constructor; cbn [u_keys u_dsk u_written].
     - apply (j_keys _ Js).
     - intros o Ho. apply (j_dsk _ Js). destruct Ho as [Ho|Ho]; auto. right.
+      rewrite Hq0, N.add_0_r in *.
       destruct (memN ((o - off) / T) (u_written s)) eqn:M; auto.
-      destruct (j_cov _ Js _ (o - off) M eq_refl) as (k & K1 & K2).
+      destruct (j_cov _ Js _ (o - off) M ltac:(rewrite Hq0; lia)) as (k & K1 & K2).
       assert (memN ((o - off) / T) (reopen_written B T (u_keys s)) = true); [|congruence].
       apply RW. exists k. split; auto. apply COV; auto. apply (j_keys _ Js); auto.
     - intros c x Hc Hx. apply RW in Hc. destruct Hc as (k & K1 & K2). exists k. split; auto.
-      apply COV; [apply (j_keys _ Js); auto|]. subst c. exact K2.
+      apply COV; [apply (j_keys _ Js); auto|]. rewrite Hq0, N.add_0_r in Hx. subst c. exact K2.
   Qed.
 
-  Lemma ustep_ok s o : J s -> J (ustep B T off s o).
+  Lemma ustep_ok s o : J s -> (o = UReopen -> off < T) -> J (ustep B T off s o).
   Proof.
-    intros Js. destruct o.
+    intros Js Hre. destruct o.
     - cbn [ustep]. destruct (save_ok s blk (cnt * B) Js) as (A1 & A2 & A3). cbv zeta in *.
       apply real_write_ok; auto. intros x Hx. apply A3.
       rewrite firstn_length in Hx. lia.
@@ -250,8 +278,11 @@ Section UndoProofs.
     - apply reopen_ok; auto.
   Qed.
 
-  Lemma urun_ok : forall ops s, J s -> J (urun B T off s ops).
-  Proof. induction ops as [|o r IH]; intros s Js; cbn; auto. apply IH. apply ustep_ok; auto. Qed.
+  Lemma urun_ok : forall ops s, J s -> Forall (fun o => o = UReopen -> off < T) ops -> J (urun B T off s ops).
+  Proof.
+    induction ops as [|o rr IH]; intros s Js F; cbn; auto. inversion F; subst.
+    apply IH; auto. apply ustep_ok; auto.
+  Qed.
 
   (* ---- replay ---- *)
   Lemma In_ins_key k x : forall l, In x (ins_key k l) <-> x = k \/ In x l.
@@ -294,7 +325,7 @@ Section UndoProofs.
     intros Js o. unfold e2undo. rewrite replay_spec.
     - destruct (existsb _ (sort_keys (u_keys s))) eqn:E; [reflexivity|].
       apply (j_dsk _ Js). destruct (N.lt_ge_cases o off); auto. right.
-      destruct (memN ((o - off) / T) (u_written s)) eqn:M; auto.
+      destruct (memN ((o - off) / T + q) (u_written s)) eqn:M; auto.
       destruct (j_cov _ Js _ (o - off) M eq_refl) as (k & K1 & K2).
       assert (existsb (fun k0 => (kpos k0 + off <=? o) && (o <? kpos k0 + off + klen k0)) (sort_keys (u_keys s)) = true);
         [|congruence].
@@ -312,7 +343,7 @@ Section UndoProofs.
     rewrite replay_spec by (intros k Hk; apply (j_keys _ Js); apply P; auto).
     destruct (existsb _ keys') eqn:E; [reflexivity|].
     apply (j_dsk _ Js). destruct (N.lt_ge_cases o off); auto. right.
-    destruct (memN ((o - off) / T) (u_written s)) eqn:M; auto.
+    destruct (memN ((o - off) / T + q) (u_written s)) eqn:M; auto.
     destruct (j_cov _ Js _ (o - off) M eq_refl) as (k & K1 & K2).
     assert (existsb (fun k0 => (kpos k0 + off <=? o) && (o <? kpos k0 + off + klen k0)) keys' = true); [|congruence].
     apply existsb_exists. exists k. split; [apply P; auto|].
@@ -320,21 +351,23 @@ Section UndoProofs.
   Qed.
 End UndoProofs.
 
+Definition reopen_ok_ops (T off : N) (ops : list uop) : Prop :=
+  Forall (fun o => o = UReopen -> off < T) ops.
+
 Theorem undo_restores_all : forall B T off d0 ops,
-  0 < B -> 0 < T -> T mod B = 0 ->
+  0 < B -> 0 < T -> T mod B = 0 -> reopen_ok_ops T off ops ->
   forall o, e2undo B off (urun B T off (uinit d0) ops) o = d0 o.
 Proof.
-  intros B T off d0 ops HB HT HD. apply (e2undo_restores B T off HB HT HD d0).
+  intros B T off d0 ops HB HT HD HR. apply (e2undo_restores B T off HB HT HD d0).
   apply urun_ok; auto. apply J_init.
 Qed.
 
-
 Theorem replay_order_irrelevant_all : forall B T off d0 ops keys',
-  0 < B -> 0 < T -> T mod B = 0 ->
+  0 < B -> 0 < T -> T mod B = 0 -> reopen_ok_ops T off ops ->
   let s := urun B T off (uinit d0) ops in
   (forall k, In k keys' <-> In k (u_keys s)) ->
   forall o, replay_keys B off keys' (u_dsk s) o = d0 o.
 Proof.
-  intros B T off d0 ops keys' HB HT HD s P. apply (replay_order_irrelevant B T off HB HT HD d0); auto.
+  intros B T off d0 ops keys' HB HT HD HR s P. apply (replay_order_irrelevant B T off HB HT HD d0); auto.
   apply urun_ok; auto. apply J_init.
 Qed.
